@@ -113,6 +113,7 @@ func init() {
 		"(*log.Logger).Println": extNop,
 		"(*log.Logger).Output":  extNilError,
 		"runtime/debug.Stack":   func(fr *frame, args []value) value { return strToBytes("<stack>") },
+		"runtime.Caller":        func(fr *frame, args []value) value { return tuple{uintptr(0), "", 0, false} },
 		"runtime.Callers":       func(fr *frame, args []value) value { return 0 },
 		"runtime.Gosched":       extNop,
 		"runtime.KeepAlive":     extNop,
@@ -211,6 +212,20 @@ func init() {
 		"time.Now":         func(fr *frame, args []value) value { return structure{uint64(0), int64(63839664000), (*value)(nil)} },
 		"time.runtimeNano": func(fr *frame, args []value) value { return int64(1704067200000000000) },
 		"runtime.nanotime": func(fr *frame, args []value) value { return int64(1704067200000000000) },
+
+		// context.WithValue without the reflectlite comparability check
+		"context.WithValue": func(fr *frame, args []value) value {
+			if args[0].(iface).t == nil {
+				panic(targetPanic{iface{t: types.Typ[types.String], v: "cannot create context from nil parent"}})
+			}
+			if args[1].(iface).t == nil {
+				panic(targetPanic{iface{t: types.Typ[types.String], v: "nil key"}})
+			}
+			pkg := fr.i.prog.ImportedPackage("context")
+			vt := pkg.Type("valueCtx").Object().Type()
+			var cell value = structure{args[0], args[1], args[2]}
+			return iface{t: types.NewPointer(vt), v: &cell}
+		},
 
 		// GODEBUG settings: always the default
 		"(*internal/godebug.Setting).Value":         func(fr *frame, args []value) value { return "" },
